@@ -22,13 +22,14 @@ EXPLANATION = (
     "package_of split on the same alias cases; every class and inf/nan/array is exported through __all__ and the "
     "package's star imports; Engine.__init__ (through which the representation rebuilds the engine) re-points the terms of input and "
     "output variables; no engine component whose class defines __len__ (variables, rule blocks) is used as a truth value (R13); "
-    "thorough tier checks the constructor calls of the 71 shipped example modules"
+    "no setting is frozen in a default argument and Op.str / Op.is_close read decimals and tolerances when called (Y6, Y8); every parameter of the exporter / "
+    "representation methods is read (R14); thorough tier checks the constructor calls of the 71 shipped example modules"
 )
 ASSUMPTIONS = [
     "digit-exactness of builtins.repr(float), black formatting and string quoting are not decided",
     "classes wrapping callables (NormLambda, HedgeLambda) are not representable by design",
 ]
-FLOORS = {"R13": 2, "H7": 4, "R11": 11, "R12": 1, "R1": 60, "R2": 9, "R5": 4, "R6": 3, "R7": 16, "R8": 1, "R9": 3, "T10": 4}
+FLOORS = {"Y6": 1, "Y8": 3, "R14": 1, "R13": 2, "H7": 4, "R11": 11, "R12": 1, "R1": 60, "R2": 9, "R5": 4, "R6": 3, "R7": 16, "R8": 1, "R9": 3, "T10": 4}
 
 NOT_REPRESENTABLE = {"NormLambda": "wraps a Python callable", "HedgeLambda": "wraps a Python callable"}
 DIRECTIVES = {("Engine", "load"), ("Function", "load"), ("Linear", "engine"), ("Function", "engine")}
@@ -161,6 +162,13 @@ def run(check: Check) -> None:
     from .common import component_truthiness
 
     component_truthiness(check, "R13")
+    from . import c20
+
+    c20.early_binding(check, check.program)  # Y6: no setting is frozen in a default argument / class body / module level
+    c20.call_time_reads(check)  # Y8: Op.str / Op.is_close read decimals and the tolerances when called
+    from .common import unused_parameters
+
+    unused_parameters(check, "R14", {"PythonExporter", "Representation", "Exporter"})
     from .c13 import engine_init
 
     engine_init(check)  # the representation rebuilds the engine through Engine(...): its terms must be re-pointed to the new engine
